@@ -1,6 +1,7 @@
 import Driver.Tag
 import Driver.Utf
 import Driver.Lz4
+import Driver.Vm
 /-! `grdriver <mode>`: one input line → one output line (DESIGN.md §2 "line protocol") -/
 open Driver
 
@@ -23,5 +24,6 @@ def main (args : List String) : IO UInt32 := do
   | ["tag"] => loop stdin stdout Tag.step; return 0
   | ["utf"] => loop stdin stdout Utf.step; return 0
   | ["lz4"] => loop stdin stdout Lz4.step; return 0
+  | ["vm"] => loop stdin stdout Vm.step; return 0
   | ["lz4io"] => loopIO stdin stdout Lz4.stepIO; return 0
   | _ => IO.eprintln "usage: grdriver <mode>"; return 2
